@@ -37,6 +37,7 @@ from common import REPO, VERIF, Check, f2h, h2f, use_repo
 
 sys.path.insert(0, str(VERIF / "harness" / "translators"))
 import tr_tuning  # noqa: E402
+import tr_runorder  # noqa: E402
 
 LEVEL = "proof"
 KINDS = ("scaler", "window", "dirichlet", "hmc", "block")
@@ -415,6 +416,8 @@ def execute_run(cfg, tape_seed):
             cur["acc_prob"] = float(acceptance_prob)
             cur["sample"] = sample
             cur["row"] = list(rows[-1]) if rows else None
+            cur["log_sample"] = log_samples[-1] if log_samples else None
+            cur["n_rows"] = len(rows)
             if is_hmc and op._adaptors:
                 cur["adaptors_before"] = [adaptor_state(a) for a in op._adaptors]
                 cur["branch"] = branch_probe(op._adaptors, rng2, sample, accepted)
@@ -438,6 +441,14 @@ def execute_run(cfg, tape_seed):
     for i, op in enumerate(ops):
         wrap(op, i)
     logger = ContainerLogger(list(params) + [joint], rows, 1)
+    log_samples = []
+    o_log = logger.log
+
+    def log(*a, **k):
+        log_samples.append(k.get("sample"))
+        return o_log(*a, **k)
+
+    logger.log = log
     mc = MCMC("mcmc", JointProxy(), ops, cfg["iterations"], loggers=[logger], checkpoint=None, every=0)
     err = None
     init = snap()
@@ -559,6 +570,7 @@ def parse_step(rep, sizes):
             "scale": h2f(opf[0]), "adapt_count": int(opf[1]), "accept": int(opf[2]), "reject": int(opf[3]),
             "window": [int(x) for x in opf[5:5 + wl]],
             "consumed": tuple(int(x) for x in parts[9]), "epoch": int(parts[10][0]), "acc_total": int(parts[10][1]),
+            "log_sample": int(parts[10][2]), "tune_sample": int(parts[10][3]),
             "adaptors": parse_adaptors(rep[3:].split("|")[11] if len(parts) > 11 else "")}
 
 
@@ -641,6 +653,9 @@ def compare_run(ck: Check, drv, cfg, res, label):
             bad.append(f"scale after tuning (model {m['scale']}, impl {r['scale_after']})")
         if (m["adapt_count"], m["accept"], m["reject"], m["window"]) != (r["adapt_count"], r["n_accept"], r["n_reject"], r["window"]):
             bad.append("counters / acceptance window")
+        if r["sample"] != m["tune_sample"] or r.get("log_sample") != m["log_sample"] or r.get("n_rows") != m["log_sample"] + 1:
+            bad.append(f"iteration number handed to tune / loggers (impl tune {r['sample']}, log {r.get('log_sample')}, "
+                       f"rows {r.get('n_rows')}; model {m['tune_sample']})")
         if "adaptors_after" in r:
             for ma, ia in zip(m["adaptors"], r["adaptors_after"]):
                 if ma["type"] != ia["type"] or any(ma.get(k) != ia.get(k) for k in ("calls", "accepted", "counter")) or \
@@ -679,7 +694,9 @@ def boldness(kind, scale):
     """proposal boldness as a function of the operator's scale field (semantics checked against the
     implementation's behaviour by `probe_boldness`)"""
     if kind == "scaler":
-        return 1.0 / scale - scale
+        # the multiplier is drawn between scale and 1/scale whichever is larger: a scale factor that has crossed
+        # 1 mirrors the interval, its width is what counts
+        return abs(1.0 / scale - scale)
     if kind == "dirichlet":
         return 1.0 / scale
     if kind == "block":
@@ -820,6 +837,8 @@ def check_records(ck: Check, cfg, res, found, label):
         used_u = n_rand > own_rand
         degenerate = math.isinf(r["hr"])
         lp = r.get("lp_proposed")
+        if not degenerate and abs(r["hr"]) > 100:
+            ck.bucket("oracle/branch/large-finite-hastings" + ("/accepted" if r["accepted"] else "/rejected"))
         if degenerate:
             ck.bucket("oracle/branch/hastings-inf")
         elif lp is None or math.isnan(lp) or math.isinf(lp):
@@ -834,7 +853,15 @@ def check_records(ck: Check, cfg, res, found, label):
                     found.append((f"{kind}:density-outside-support",
                                   {"clause": "finite density used for a state the rebuilt target rejects",
                                    "used": lp, "fresh": str(fr)}, cfg, it))
-            elif lp is None or not close(lp, fr, 1e-9):
+            elif lp is None:
+                la = (fr - carried) + r["hr"]
+                found.append((f"{kind}:finite-hastings-treated-as-degenerate",
+                              {"clause": "finite Hastings ratio and finite target at the proposal, but the move was rejected "
+                                         "without evaluating the target (acceptance probability should be min(1, exp(delta+hr)))",
+                               "hr": r["hr"], "delta": fr - carried, "acceptance_probability_due": 1.0 if la >= 0 else math.exp(la),
+                               "accepted": r["accepted"]}, cfg, it))
+                degenerate = True
+            elif not close(lp, fr, 1e-9):
                 found.append((f"{kind}:stale-density", {"clause": "density used for the proposal differs from the "
                                                                   "target rebuilt at that state", "used": lp, "fresh": fr,
                                                         "proposal": r["proposed"]}, cfg, it))
@@ -927,6 +954,12 @@ def check_records(ck: Check, cfg, res, found, label):
             pass
         elif o["adapt"]:
             b0, b1 = boldness(kind, r["scale_before"]), boldness(kind, r["scale_after"])
+            if kind == "scaler" and not (0 < r["scale_after"] < 1):
+                found.append(("ScalerOperator:tuning-direction",
+                              {"clause": "tuning moved the scale factor out of (0,1): the multiplier interval [a, 1/a] is "
+                                         "mirrored and every later update moves boldness the wrong way",
+                               "acceptance_prob": r["acc_prob"], "target": o["target"],
+                               "scale_before": r["scale_before"], "scale_after": r["scale_after"]}, cfg, it))
             if r["acc_prob"] >= o["target"] and b1 < b0 * (1 - 1e-12):
                 found.append((f"{op_class(kind)}:tuning-direction",
                               {"clause": "acceptance at/above target made the next proposals more timid",
@@ -995,6 +1028,44 @@ def tuning_cases(ck: Check, drv, rng, n, found):
                            "acceptance_prob": acc, "target": target, "scale_before": scale, "scale_after": new,
                            "boldness_before": boldness(kind, scale), "boldness_after": boldness(kind, new)},
                           {"tune_only": {"kind": kind, "scale": scale, "acc": acc, "target": target, "count": count}}, 0))
+
+
+def tune_sequences(ck: Check, drv, rng, n, found):
+    """chains of operator.tune() calls on the real classes starting near the boundary of the admissible scales
+    (scale factor close to 1, block scaler close to 1, ...), mostly low acceptances first: the tuning clause is
+    checked call by call, and the scale must stay admissible"""
+    for _ in range(n):
+        kind = rng.choice(["scaler", "scaler", "block", "window", "dirichlet", "hmc"])
+        scale = {"scaler": rng.choice([0.9, 0.97, 0.995]), "block": rng.choice([1.0, 1.01, 1.2])}.get(kind, math.exp(rng.uniform(-2, 2)))
+        target, count = rng.choice([0.24, 0.8, 0.9]), rng.randint(0, 3)
+        hist = []
+        for k in range(10):
+            acc = rng.choice([0.0, 0.0, 0.05]) if k < 6 else rng.choice([1.0, 1.0, rng.random()])
+            try:
+                new, _c = real_tune(kind, scale, acc, target, count)
+            except Exception as e:
+                ck.mismatch("operator.tune raised in a chain", {"kind": kind, "scale": scale, "acc": acc,
+                                                                "error": f"{type(e).__name__}: {e}"})
+                break
+            hist.append({"acc": acc, "scale_before": scale, "scale_after": new})
+            rep = drv.ask(" ".join(["tune", kind, f2h(scale), f2h(acc), f2h(target), str(count)]))
+            ck.case(("tuneseq", kind, scale, acc, target, count), None, nontrivial=new != scale, bucket=f"tune-chain/{kind}")
+            if rep == "bad-op" or not close(h2f(rep), new, 1e-12):
+                ck.mismatch("generated tuning expressions differ from operator.tune (chain)",
+                            {"kind": kind, "scale": scale, "acc": acc, "impl": new, "model": rep})
+            admissible = {"scaler": 0 < new < 1, "block": new >= 1}.get(kind, new > 0)
+            if (acc >= target and boldness(kind, new) < boldness(kind, scale) * (1 - 1e-12)) or not admissible:
+                found.append((f"{op_class(kind)}:tuning-direction",
+                              {"clause": ("acceptance at/above target made the next proposals more timid (chain of tune() calls)"
+                                          if admissible else "tuning moved the proposal scale out of its admissible range "
+                                          "(scale factor of the multiplier interval crossed 1: the direction of every later "
+                                          "update is mirrored)"),
+                               "acceptance_prob": acc, "target": target, "scale_before": scale, "scale_after": new,
+                               "boldness_before": boldness(kind, scale), "boldness_after": boldness(kind, new), "chain": hist},
+                              {"tune_only": {"kind": kind, "scale": scale, "acc": acc, "target": target, "count": count,
+                                             "chain": hist}}, 0))
+                break
+            scale, count = new, count + 1
 
 
 def precision_cases(ck: Check, drv, rng, n, found):
@@ -1086,7 +1157,25 @@ def gen_cfg(rng, family, adapt, iterations):
         d.update(kw)
         return d
 
-    if family == "normal":
+    if family == "edge" and rng.random() < 0.5:
+        # a sharp target and a scale factor close to 1 with a high target acceptance: early moves are mostly
+        # rejected, the tuned scale factor is pushed towards 1 (it must never cross it), later tiny moves are accepted
+        n = rng.randint(1, 2)
+        t = {"kind": "normal", "loc": [1.0] * n, "scale": [rng.choice([0.01, 0.02, 0.05])] * n, "init": [[1.0] * n]}
+        ops = [op("scaler", [0], rng.choice([0.9, 0.95, 0.97, 0.99]), target=rng.choice([0.8, 0.9, 0.95]), adapt=True),
+               op("window", [0], 0.01, adapt=False, weight=0.5)]
+        iterations = max(iterations, 60)
+        exact = False
+    elif family == "edge":
+        # start far in the tail: HMC turns several hundred units of potential into kinetic energy, the Hastings term
+        # is a large negative (later positive) finite number balanced by the density change
+        n = rng.randint(1, 2)
+        t = {"kind": "normal", "loc": [0.0] * n, "scale": [1.0] * n, "init": [[rng.choice([-1, 1]) * rng.uniform(22, 36) for _ in range(n)]]}
+        ops = [op("hmc", [0], 0.05, steps=rng.randint(27, 36), mass=[1.0] * n, G=[[(1.0 if i == j else 0.0) for j in range(n)] for i in range(n)],
+                  b=[0.0] * n, target=0.8, adapt=False, weight=2.0),
+               op("window", [0], rng.uniform(0.5, 2.0), adapt=False, weight=1.0)]
+        exact = False
+    elif family == "normal":
         n = rng.randint(1, 3)
         t = {"kind": "normal", "loc": [rng.uniform(-1, 1) for _ in range(n)], "scale": [rng.uniform(0.5, 2) for _ in range(n)],
              "init": [[rng.uniform(-2, 2) for _ in range(n)]]}
@@ -1211,8 +1300,13 @@ def run(ck: Check):
     ck.extra["translator_recognised_source"] = tr_ok
     ck.extra["generated_tuning"] = {k: {"field": v["field"], "getter": v["getter"], "setter": v["setter"]}
                                     for k, v in specs.items()}
-    ok, broken = ck.lean_side({"TTGen/C15_Tuning.lean": lean_src},
-                              ["TTGen.C15_Tuning", "TTProofs.Props.C15", "drv_c15"], "TTProofs/Props/C15.lean")
+    order_src, order_ok, order_note = tr_runorder.translate(REPO)
+    if not order_ok:
+        ck.notes.append("run-order translator: " + order_note)
+    ck.extra["run_order_recognised"] = order_ok
+    ok, broken = ck.lean_side({"TTGen/C15_Tuning.lean": lean_src, "TTGen/C15_RunOrder.lean": order_src},
+                              ["TTGen.C15_Tuning", "TTGen.C15_RunOrder", "TTProofs.Props.C15", "drv_c15"],
+                              "TTProofs/Props/C15.lean")
     drv = None
     try:
         drv = ck.driver("drv_c15")
@@ -1230,10 +1324,10 @@ def run(ck: Check):
             c = json.loads(f.read_text())
             if "cfg" in c:
                 runs.append((c["cfg"], c["tape_seed"], "corpus/" + f.stem))
-        fams = ["normal", "gamma_exp", "dirichlet", "quad", "quad_nan", "hmc_adapt", "hmc_adapt"]
+        fams = ["normal", "gamma_exp", "dirichlet", "quad", "quad_nan", "hmc_adapt", "hmc_adapt", "edge"]
         for i in range(n_runs):
-            fam = fams[i % 7]
-            adapt = [True, False, "mixed"][(i // 7) % 3]
+            fam = fams[i % 8]
+            adapt = [True, False, "mixed"][(i // 8) % 3]
             runs.append((gen_cfg(rng, fam, adapt, rng.randint(*iters)), rng.randrange(1 << 30), f"run{i}"))
         for cfg, tseed, label in runs:
             try:
@@ -1262,6 +1356,7 @@ def run(ck: Check):
                 compare_run(ck, drv, cfg, res, label)
         if drv:
             tuning_cases(ck, drv, rng, 1500 if thorough else 300, found)
+            tune_sequences(ck, drv, rng, 200 if thorough else 40, found)
             precision_cases(ck, drv, rng, 400 if thorough else 80, found)
         probe_boldness(ck, rng)
     finally:
@@ -1298,7 +1393,8 @@ def replay(path: str) -> int:
         b0, b1 = boldness(t["kind"], t["scale"]), boldness(t["kind"], new)
         print(f"{op_class(t['kind'])}.tune(acceptance_prob={t['acc']}) with target {t['target']}: scale {t['scale']} -> {new}; "
               f"boldness {b0} -> {b1}")
-        bad = t["acc"] >= t["target"] and b1 < b0 * (1 - 1e-12)
+        adm = {"scaler": 0 < new < 1, "block": new >= 1}.get(t["kind"], new > 0)
+        bad = (t["acc"] >= t["target"] and b1 < b0 * (1 - 1e-12)) or not adm
         print("VIOLATES" if bad else "ok")
         return 1 if bad else 0
     if "cfg" not in obj:
